@@ -291,7 +291,14 @@ def apply_op(world, op, args):
             import pickle as _pickle
             return _pickle.loads(_pickle.dumps(a))
         if name == 'map':
-            return a.map(lambda v: 2 * v) if not params else a.map(lambda k, v: (k + 1) * v)
+            if not params:
+                return a.map(lambda v: 2 * v)
+            if params[0] == 'tosym':       # numeric coefficients become symbolic ones
+                import sympy as _sp
+                return a.map(lambda k, v: v * _sp.Symbol(f'm{k}') + 1)
+            if params[0] == 'tonum':       # symbolic coefficients become plain numbers (one of them zero)
+                return a.map(lambda k, v: (k * 7) % 5 - 1)
+            return a.map(lambda k, v: (k + 1) * v)
         if name == 'asmatrix':
             return a.asmatrix()
         return getattr(a, name)()       # norm, normalized, exp, filter, ...
